@@ -11,8 +11,10 @@
     * the copy constructor's `new Float[sz]` for `sz = 0` (a non-null empty block),
     * copy assignment's `sz == x.sz` memcpy branch and its reallocate branch,
       which overwrites `rep` WITHOUT `delete[]` (the old block is recorded in `leaked`),
-    * `memcpy` being called with null pointers when both sides are empty
-      (counted in `ubNull`; undefined behaviour in C/C++, reported by UBSan `nonnull`).
+    * the guard `if (sz) std::memcpy(…)` of the copy constructor and of the same-size
+      branch (commit 87f5175; before it `memcpy` received null pointers when both sides
+      were empty — undefined behaviour, UBSan `nonnull`).  `ubNull` counts `memcpy` calls
+      with a null argument; `Props.C15.no_null_memcpy` proves it stays 0.
 
   `new Float[n]` leaves the elements indeterminate; the model fills a fresh block
   with `default` (the correspondence harness never observes an element before it
@@ -106,6 +108,10 @@ def memcpy (s : St K) (dst src : Option Nat) (n : Nat) : Except Stop (St K) :=
       | _, _ => .error .heapFault
     | _, _ => .error .heapFault
 
+/-- `if (sz) std::memcpy(dst, src, sz*sizeof(Float));` -/
+def memcpyIf (s : St K) (dst src : Option Nat) (n : Nat) : Except Stop (St K) :=
+  if n = 0 then .ok s else memcpy s dst src n
+
 def setObj (s : St K) (i : Nat) (o : Option Obj) : St K := { s with objs := upd s.objs i o }
 
 def step (s : St K) : Op K → Except Stop (St K)
@@ -123,7 +129,7 @@ def step (s : St K) : Op K → Except Stop (St K)
     match s.objs i, s.objs j with
     | none, some x =>                               -- sz = x.sz; rep = new Float[sz];
       let (s1, a) := alloc s x.sz
-      do let s2 ← memcpy s1 (some a) x.rep x.sz     -- memcpy(rep, x.rep, sz*sizeof(Float));
+      do let s2 ← memcpyIf s1 (some a) x.rep x.sz   -- if (sz) memcpy(rep, x.rep, sz*sizeof(Float));
          .ok (setObj s2 i (some ⟨some a, x.sz⟩))
     | _, _ => .error .precondition
   | .moveCtor i j =>
@@ -135,8 +141,8 @@ def step (s : St K) : Op K → Except Stop (St K)
     match s.objs i, s.objs j with
     | some t, some x =>
       if i = j then .ok s                           -- if (&x == this) return *this;
-      else if t.sz = x.sz then                      -- if (sz == x.sz) { memcpy(rep, x.rep, …); return *this; }
-        memcpy s t.rep x.rep t.sz
+      else if t.sz = x.sz then                      -- if (sz == x.sz) { if (sz) memcpy(rep, x.rep, …); return *this; }
+        memcpyIf s t.rep x.rep t.sz
       else
         -- `rep` is about to be overwritten without `delete[] rep`
         let s0 := match t.rep with
